@@ -79,6 +79,9 @@ pub struct DriveOpts<'a> {
     pub announce: bool,
     /// flat mode: decode into buf[flat_start..] (the bytes before it must stay untouched)
     pub flat_start: usize,
+    /// ring mode: when the ring is full, first call once more with out_pos == len (an empty but legal
+    /// region) before wrapping to 0
+    pub probe_full_ring: bool,
 }
 
 /// Drive `decompress_with_limit` over `data` with a schedule. Checks the per-call invariants
@@ -111,6 +114,7 @@ pub fn drive(r: &mut DecompressorOxide, data: &[u8], o: &DriveOpts, mut hook: im
     let bound = (data.len() as u64) * 2 + (o.sched.chunks.len() + o.sched.budgets.len()) as u64 * 2 + 64;
     let mut out_bound_extra = 0u64;
     let mut shadow: Vec<u8> = Vec::new();
+    let mut probed_here = false;
     loop {
         let chunk = &data[pos..avail_end];
         let has_more = o.announce && avail_end < data.len();
@@ -187,7 +191,13 @@ pub fn drive(r: &mut DecompressorOxide, data: &[u8], o: &DriveOpts, mut hook: im
                         d.final_state = state;
                         return Ok(d);
                     }
-                    out_pos = 0;
+                    if o.probe_full_ring && !probed_here {
+                        // do not wrap yet: the next call is made on the empty region at the end of the ring
+                        probed_here = true;
+                    } else {
+                        out_pos = 0;
+                        probed_here = false;
+                    }
                 }
             }
             TINFLStatus::BlockBoundary => {
@@ -208,7 +218,8 @@ pub fn drive(r: &mut DecompressorOxide, data: &[u8], o: &DriveOpts, mut hook: im
                 return Ok(d);
             }
         }
-        if calls > bound + out_bound_extra {
+        // (with probe_full_ring every ring turn costs one extra call)
+        if calls > bound + out_bound_extra * (1 + o.probe_full_ring as u64) {
             return Err(Violation::new("dec:driver-no-progress", format!("driver loop exceeded {} calls (in {} bytes, out so far {})", bound + out_bound_extra, data.len(), out_bound_extra)));
         }
     }
@@ -222,7 +233,7 @@ pub fn plain_hook(_: &mut DecompressorOxide, _: &mut CallInfo) -> Result<(), Vio
 pub fn flat_oneshot(data: &[u8], flags: u32, cap: usize) -> Result<DecRun, Violation> {
     let mut r = DecompressorOxide::new();
     let s = DecSched::default();
-    drive(&mut r, data, &DriveOpts { flags, mode: BufMode::Flat { cap }, sched: &s, canary: false, max_calls: None, announce: true, flat_start: 0 }, plain_hook)
+    drive(&mut r, data, &DriveOpts { flags, mode: BufMode::Flat { cap }, sched: &s, canary: false, max_calls: None, announce: true, flat_start: 0, probe_full_ring: false }, plain_hook)
 }
 
 pub fn zflags(zlib: bool) -> u32 {
